@@ -74,6 +74,26 @@ def client_ctx(ver, ignore_eof=False):
     return _ctx_cache[key]
 
 
+def pha_ctxs():
+    """TLS 1.3 contexts for post-handshake client authentication: (server, client); the client has a certificate and
+    answers a CertificateRequest from inside ssl_object.read()."""
+    if "pha" not in _ctx_cache:
+        srv = ssl.SSLContext(ssl.PROTOCOL_TLS_SERVER)
+        srv.load_cert_chain(CERT, KEY)
+        srv.minimum_version = srv.maximum_version = ssl.TLSVersion.TLSv1_3
+        srv.load_verify_locations(CERT)
+        srv.verify_mode = ssl.CERT_REQUIRED
+        srv.post_handshake_auth = True          # => no certificate request during the initial handshake
+        cli = ssl.SSLContext(ssl.PROTOCOL_TLS_CLIENT)
+        cli.load_verify_locations(CERT)
+        cli.load_cert_chain(CERT, KEY)
+        cli.minimum_version = cli.maximum_version = ssl.TLSVersion.TLSv1_3
+        cli.post_handshake_auth = True
+        cli.options &= ~ssl.OP_IGNORE_UNEXPECTED_EOF
+        _ctx_cache["pha"] = (srv, cli)
+    return _ctx_cache["pha"]
+
+
 def classify(exc) -> int:
     """Outcome class of an exception raised by an SSL-object method (the distinctions the transports make)."""
     if isinstance(exc, ssl.SSLWantReadError):
@@ -411,6 +431,8 @@ class MemTransport(AsyncStreamTransport):
         self.writable = asyncio.Event()       # cleared = back-pressure: send_all() parks until it is set again
         self.writable.set()
         self.send_pieces = 0                  # > 0: send_all is NOT atomic: it delivers pieces of this size and yields in between
+        self.deliver_early = 0                # > 0: like a BufferedProtocol: the bytes are written into the caller's buffer when
+        #                                       they arrive, the waiting task is only woken up that many loop iterations later
 
     # -- AsyncBaseTransport
     def backend(self):
@@ -523,6 +545,8 @@ class MemTransport(AsyncStreamTransport):
                     memoryview(buffer)[:n] = self.stream[:n]
                     del self.stream[:n]
                     self.delivered += n
+                    for _ in range(self.deliver_early):
+                        await asyncio.sleep(0)
                     self.rec.log("rcvd", tid, n)
                     return n
                 if limit is not None and limit <= 0:
